@@ -406,6 +406,24 @@ func TestC08(t *testing.T) {
 							}
 							cur = rw.all()
 							env.checkForwarded("reader->writer", mi, s, w, cur, enc.class, nil)
+							if k == 0 {
+								// frame-level fan-out: the same frame object goes to a second link's writer (and to a log) - what each
+								// of them emits is the same valid frame
+								rw2 := &recWriter{}
+								fw2 := &frame.Writer{ByteWriter: rw2, DialectRW: genv.drw}
+								_ = fw2.Initialize()
+								if err := fw2.Write(fr); err != nil {
+									rep.Violation(fmt.Sprintf("msg=%s ver=%d enc=%s what=bytes", mi.Name, version, enc.class), "a second writer refused the frame the first one had taken: "+err.Error(), vh.Hex(w))
+									return
+								}
+								rep.Count("frames_written_to_two_writers", 1)
+								env.checkForwarded("reader->two-writers", mi, s, w, rw2.all(), enc.class, nil)
+								if !bytes.Equal(rw2.all(), cur) {
+									rep.Violation(fmt.Sprintf("msg=%s ver=%d enc=%s what=bytes", mi.Name, version, enc.class), "one frame object written to two writers came out with different bytes",
+										map[string]interface{}{"first": vh.Hex(cur), "second": vh.Hex(rw2.all())})
+									return
+								}
+							}
 							if rep.NViolations() > 50 {
 								return
 							}
